@@ -91,6 +91,9 @@ type Interp struct {
 	observes    []string
 	pathNotes   []string
 
+	pcVars     map[*Term]bool
+	pcSeen     map[*Term]bool
+	constCache map[*ssa.Const]Value
 	stack      []*ssa.Function
 	model      Model
 	modelMemo  map[*Term]*Term
@@ -285,6 +288,21 @@ func (it *Interp) floatC(f float64, t types.Type) *Term {
 }
 
 func (it *Interp) constValue(c *ssa.Const) Value {
+	if v, ok := it.constCache[c]; ok {
+		return v
+	}
+	v := it.constValue1(c)
+	switch v.(type) {
+	case *Term, string:
+		if it.constCache == nil {
+			it.constCache = map[*ssa.Const]Value{}
+		}
+		it.constCache[c] = v
+	}
+	return v
+}
+
+func (it *Interp) constValue1(c *ssa.Const) Value {
 	if c.Value == nil {
 		return it.zero(c.Type())
 	}
@@ -323,6 +341,7 @@ func (it *Interp) addPC(c *Term) {
 		return
 	}
 	it.pc = append(it.pc, c)
+	it.notePCVars(c)
 	if it.model != nil {
 		if v := it.tb.Eval(c, it.model, it.modelMemo); v == nil || !v.IsConst() || !v.B {
 			it.model = nil
@@ -340,6 +359,24 @@ func (it *Interp) addPC(c *Term) {
 				it.known[a] = true
 			}
 		}
+	}
+}
+
+// notePCVars records which variables occur in the path condition.
+func (it *Interp) notePCVars(t *Term) {
+	if it.pcSeen[t] {
+		return
+	}
+	it.pcSeen[t] = true
+	if t.Op == "var" {
+		it.pcVars[t] = true
+		if t.Side != nil {
+			it.notePCVars(t.Side)
+		}
+		return
+	}
+	for _, a := range t.Args {
+		it.notePCVars(a)
 	}
 }
 
@@ -414,6 +451,11 @@ func (it *Interp) decide(c *Term) bool {
 	var choice bool
 	if d := it.nextDecision(); d >= 0 {
 		choice = d == 1
+	} else if v := stripNot(c); v.Op == "var" && !it.pcVars[v] {
+		// an unconstrained boolean input: both sides are feasible, no query needed
+		alt := append(append([]int{}, it.decisions...), 0)
+		it.pushWork(alt)
+		choice = true
 	} else {
 		side, have := it.evalModel(c)
 		if have {
@@ -463,6 +505,13 @@ func (it *Interp) decide(c *Term) bool {
 	}
 	it.rep.Transitions++
 	return choice
+}
+
+func stripNot(c *Term) *Term {
+	for c.Op == "not" {
+		c = c.Args[0]
+	}
+	return c
 }
 
 func b2i(b bool) int {
